@@ -2,6 +2,42 @@
 from .params_base import ParamsProp
 from ..prng import Rng
 from .. import genv as G
+from .inv_base import InvProp
+from .c01 import inv, cls
+
+_INV = InvProp()
+
+
+def conflict_then_override(r):
+    """Through the class walk (Node::merge_into): classes stack layers of different kinds on one parameter (a conflict if
+    it were rendered), a later class or the node overrides that key with ~key (which discards the conflict), and further
+    layers merge onto the new value."""
+    kinds = [1, "s", [1, 2], {"a": 1}, True, 2.5, {"b": {"c": [1]}}, []]
+    k = r.choice(["foo", "cfg"])
+    nested = r.chance(1, 3)
+    def wrap(key, v):
+        return {"outer": {key: v}} if nested else {key: v}
+    a, b = r.choice(kinds), r.choice(kinds)
+    new = r.choice(kinds)
+    files = {"classes/one.yml": cls("one", **wrap(k, a)), "classes/two.yml": cls("two", **wrap(k, b))}
+    chain = ["one", "two"]
+    if r.chance(1, 2):
+        files["classes/mid.yml"] = cls("mid", **wrap(k, r.choice(kinds)))
+        chain.append("mid")
+    where = r.choice(["class", "node", "none"])
+    if where == "class":
+        files["classes/fix.yml"] = cls("fix", **wrap("~" + k, new))
+        chain.append("fix")
+    if r.chance(1, 2):
+        files["classes/late.yml"] = cls("late", **wrap(k, r.choice([new, r.choice(kinds)])))
+        chain.append("late")
+    nodep = wrap("~" + k, new) if where == "node" else {}
+    files["nodes/n.yml"] = cls("n", chain, **nodep)
+    files["nodes/m.yml"] = cls("m", list(reversed(chain)))
+    c = inv(files)
+    c["fam"] = "conflict_then_override"
+    return c
+
 
 CLAUSES = [
     G.P({"k": {"a": 1}}, {"~k": [1]}),                      # different kind without conflict
@@ -52,7 +88,24 @@ class C10(ParamsProp):
                 G.add_refs(r, layers, r.range(1, 3), p_cyclic=0, p_dangling=0, p_embedded=0)
             yield {"op": "params", "layers": layers}
 
+    def cases(self, tier, seed):
+        yield from super().cases(tier, seed)
+        for i in range(120 if tier == "quick" else 2500):
+            yield conflict_then_override(Rng(seed, "C10:inv", i))
+
+    def judge(self, req, impl, reply):
+        if req.get("op") == "inventory":
+            return _INV.judge(req, impl, reply)
+        return super().judge(req, impl, reply)
+
+    def tags(self, req, impl, reply):
+        if req.get("op") == "inventory":
+            return _INV.tags(req, impl, reply) + ["family=conflict_then_override"]
+        return super().tags(req, impl, reply)
+
     def nontrivial(self, req, impl, reply):
+        if req.get("op") == "inventory":
+            return True
         s = str(req["layers"])
         return "'~" in s and len(req["layers"]) >= 2
 
